@@ -1530,7 +1530,9 @@ def _fresh_ks(o: Obs, count: int = 4) -> list[int]:
     return out
 
 
-def _shape(arity: int, ks: Sequence[int]) -> list:
+def _shape(arity: int, ks: Sequence[int], small: bool = False) -> list:
+    if arity == 2 and small:
+        return [[[0], ks[0]], [[0, 1], ks[1]]]
     if arity == 1:
         return [[[0], ks[0]], [[0], ks[1]]]
     if arity == 2:
@@ -1625,7 +1627,8 @@ def alphabet(o: Obs, cfg: dict) -> list[list]:
         return [[rad[q] for q in loc], list(loc), k]
 
     def subd(loc: Sequence[int], empty: bool = False) -> list:
-        return [[rad[q] for q in loc], [] if empty else _shape(len(loc), ks)]
+        return [[rad[q] for q in loc],
+                [] if empty else _shape(len(loc), ks, lean)]
 
     locs = universe_locs(nq)
     if long and nq > 3:
@@ -1635,6 +1638,7 @@ def alphabet(o: Obs, cfg: dict) -> list[list]:
     one = [f for f in F if len(f[1]) == 1]
     two = [f for f in F if len(f[1]) == 2]
     bad_ops = [[[2], [nq], k0], [[5 - rad[0]], [0], k0]]   # off circuit, wrong radix
+    probe_bad = not (lean and len(recs) >= 3)
     cyc_all = list(range(-n - 1, n + 2))
     cyc_red = sorted({-n - 1, -1, *range(n), n, n + 1})
     cyc_in = list(range(n))
@@ -1652,7 +1656,7 @@ def alphabet(o: Obs, cfg: dict) -> list[list]:
 
     if grow:
         # ---- append family
-        for f in F + bad_ops:
+        for f in F + (bad_ops if probe_bad else []):
             A.append(['append', f])
         for f in (one[:1] + two[:1]):
             A.append(['append_gate', f])
@@ -1671,8 +1675,9 @@ def alphabet(o: Obs, cfg: dict) -> list[list]:
         for c in (cyc_red if lean else cyc_all):
             for f in F:
                 A.append(['insert', c, f])
-        A.append(['insert', 0, bad_ops[0]])
-        A.append(['insert', 0, bad_ops[1]])
+        if probe_bad:
+            A.append(['insert', 0, bad_ops[0]])
+            A.append(['insert', 0, bad_ops[1]])
         for c in sorted({0, n, n + 1}):
             A.append(['insert_gate', c, (two or one)[0]])
         ic_locs = [l for l in sub_locs if len(l) <= 2]
